@@ -73,11 +73,11 @@ func c06Shape(prog []*rt.Node) string {
 }
 
 var c06Gaps = map[int][]string{
-	rt.SiteAfterOp:    {" ", "\t", "\n", "\n\n", " # c\n", "\n  ", "#\n", " #\n", "# \n#\n"},
+	rt.SiteAfterOp:    {" ", "\t", "\n", "\n\n", " # c\n", "\n  ", "#\n", " #\n", "# \n#\n", "\r\n", " \r\n\t"},
 	rt.SiteAfterComma: {" ", "\t", "\n", "\n\n", " # c\n", "#\n"},
 	rt.SiteAfterOpen:  {" ", "\t", "\n", "\n\n", " # c\n", "#\n"},
 	rt.SiteAfterColon: {" ", "\t", "\n", "\n\n", " # c\n", "#\n"},
-	rt.SiteBetween:    {";", "\n\n", ";\n", "\n# c\n", " ; ", ";;", "\n;\n", " # c\n", "#\n", " #\n", "\n#\n", "#\n#\n"},
+	rt.SiteBetween:    {";", "\n\n", ";\n", "\n# c\n", " ; ", ";;", "\n;\n", " # c\n", "#\n", " #\n", "\n#\n", "#\n#\n", "\r\n", ";\r\n", "\n\t\n"},
 	rt.SiteSpace:      {" ", "\t", "   "},
 }
 
